@@ -452,12 +452,29 @@ def make_alg(variant, hc, which):
     return cls(name="a", ordmax=B_ORDMAX_PL, nxseg=B_NXSEG, method_SD=B_PL_METHOD, hc=hcp)
 
 
+_TABLES = ("Fn_poles", "Xi_poles", "Phi_poles", "Lambds", "Fn_poles_cov", "Xi_poles_cov", "Phi_poles_cov", "Lab")
+
+
 def run_one(variant, hc, seed, which, rec=None):
+    """Run the algorithm through its setup - twice on the same object: the second run must give the very same tables (the
+    criteria given by the user are still in force, nothing is consumed by a run). _CUR['rerun'] reports the comparison."""
     setup = get_setup(variant[2], seed, which, rec)
     alg = make_alg(variant, hc, which)
     setup.add_algorithms(alg)
     setup.run_by_name("a")
-    return alg.result
+    first = alg.result
+    _CUR["rerun"] = None
+    if (int(bool(hc.get("conj"))) + int(round(10 * hc.get("xi_max", 0))) + int(round(100 * hc.get("mpc_lim", 0))) + int(round(100 * hc.get("mpd_lim", 0)))) % 3:
+        return first                      # the second run is made on every third point of the criteria lattice
+    setup.run_by_name("a")
+    second = alg.result
+    diff = []
+    for k in _TABLES:
+        a, b = getattr(first, k, None), getattr(second, k, None)
+        if (a is None) != (b is None) or (a is not None and not (np.shape(a) == np.shape(b) and np.array_equal(np.asarray(a), np.asarray(b), equal_nan=True))):
+            diff.append(k)
+    _CUR["rerun"] = diff
+    return first
 
 
 # ---- driver A -------------------------------------------------------------------------------
@@ -481,6 +498,13 @@ def case_A(t, variant, vi, names, ti, hcs, seed, cat, only_g=None):
         except Exception as e:
             t.violation(f"raises:{type(e).__name__}:{vname}.run", f"{vname}.run raised {type(e).__name__}: {e} on a designed population {names}; hc={hc}", case)
             continue
+        if _CUR.get("rerun") is None:
+            pass
+        elif _CUR.get("rerun"):
+            t.violation(f"rerun-differs:{vname}", f"{vname}: a second run of the same algorithm object gives different tables {_CUR['rerun']} "
+                        f"(hard criteria no longer those given by the user?); hc={hc}", case)
+        else:
+            t.outcomes["rerun-identical"] += 1
         t.transitions += 1
         t.validated += 1
         n = judge(t, vname, unf, poles, res, hc, case, (vi * 10000 + ti) * 1000 + g)
@@ -584,6 +608,13 @@ def case_B(t, variant, vi, rec, g, hc, seed):
     if unf is None:
         t.violation(f"seam-not-reached:{vname}", f"{vname}.run did not call the pole routine through the algorithm module", case)
         return
+    if _CUR.get("rerun") is None:
+        pass
+    elif _CUR.get("rerun"):
+        t.violation(f"rerun-differs:B/{vname}", f"{vname}: a second run of the same algorithm object on record {rec} gives different tables "
+                    f"{_CUR['rerun']}; hc={hc}", case)
+    else:
+        t.outcomes["rerun-identical"] += 1
     t.transitions += 1
     t.validated += 1
     poles = analyse(unf)
@@ -650,7 +681,7 @@ def explore(ctx):
     for v in VARIANTS_B:
         for c in ("xi_high", "mpc", "mpd") + (("cov",) if v[4] else ()):
             req.append(f"only:{c}:B/{v[0]}")
-    ctx.require("kept-as-required", "rejected-as-required", "B:poles-in-unfiltered:some", *req)
+    ctx.require("rerun-identical", "kept-as-required", "rejected-as-required", "B:poles-in-unfiltered:some", *req)
 
 
 def replay(case):
